@@ -204,6 +204,12 @@ func (s *AppState) Verify() error {
 		}
 
 		if coin.Crr == 0 {
+			// tokens cannot be staked, but a Lock transaction freezes them
+			for _, ff := range s.FrozenFunds {
+				if ff.Coin == coin.ID {
+					volume.Add(volume, helpers.StringToBigInt(ff.Value))
+				}
+			}
 			if volume.Cmp(helpers.StringToBigInt(coin.Volume)) != 0 {
 				return fmt.Errorf("wrong token %s (%d) volume (%s)", coin.Symbol.String(), coin.ID, big.NewInt(0).Sub(volume, helpers.StringToBigInt(coin.Volume)))
 			}
